@@ -1,6 +1,7 @@
 package wsim
 
 import (
+	"errors"
 	"fmt"
 
 	"github.com/gorilla/websocket"
@@ -222,7 +223,7 @@ func oracleC08(run *Run) {
 		// the read call returns the handler's error, permanently
 		if errAt == len(obs) {
 			run.fail("C08", "handler-error-lost", "lost", "%s: a handler returned an error but the read program saw none", who)
-		} else if obs[errAt].ErrVal != errHandler {
+		} else if !errors.Is(obs[errAt].ErrVal, errHandler) {
 			run.fail("C08", "handler-error-lost", "replaced", "%s: a handler returned an error but the read API returned %q", who, obs[errAt].ErrText)
 		}
 		checkSticky(run, "C08", who, rt)
@@ -239,7 +240,8 @@ func oracleC08(run *Run) {
 		run.fail("C08", "close-not-reported", "none", "%s: a close frame was received but no read failed", who)
 	} else {
 		o := obs[errAt]
-		ce, ok := o.ErrVal.(*websocket.CloseError)
+		var ce *websocket.CloseError
+		ok := errors.As(o.ErrVal, &ce)
 		if !ok || ce.Code != closeExp.CloseCode || ce.Text != closeExp.CloseText {
 			run.fail("C08", "close-error-fields", "fields", "%s: close frame carried code %d reason %q; the read API returned %s (%q)", who, closeExp.CloseCode, clip(closeExp.CloseText), o.Err, clip(o.ErrText))
 		}
